@@ -90,6 +90,25 @@ def make_obj(spec, salt=0):
                 return {"k%d" % i: rec(d - 1) for i in range(rng.randrange(4))}
             return Thing(rec(d - 1), rec(d - 1))
         return [rec(4) for _ in range(n)]
+    if k in ("utext", "udict", "ulist", "umix"):
+        # text with 2-, 3- and 4-byte UTF-8 characters; "dense": (almost) every character is multi-byte
+        alphabet = ["\u00e9", "\u20ac", "\U0001F600", "\u00fc", "\u4e2d", "\U00010348"]
+        if not spec.get("dense"):
+            alphabet = alphabet + list("abcdefghij klmnop")
+
+        def text(m, period=None):
+            if period:  # periodic (compressible) text of m characters
+                unit = "".join(rng.choice(alphabet) for _ in range(period))
+                return (unit * (m // period + 1))[:m]
+            return "".join(rng.choice(alphabet) for _ in range(m))
+        per = spec.get("period")
+        if k == "utext":
+            return text(n, per)
+        if k == "udict":
+            return {text(5): text(n, per), "k\u00e9y": [text(3), 1, 2.5], text(4): {"\u20ac": text(7)}, "salt": salt}
+        if k == "ulist":
+            return [text(3), [text(n, per), (text(2), b"\xff\xfe", [text(9)])], 7, text(1)]
+        return [b"\x00\xff" * 9, text(n, per), bytearray(b"ab\xc3"), text(6), {"b": b"\xe2\x82", "s": text(4)}, salt]
     if k == "np":
         a = np.arange(n, dtype=spec.get("dtype", "float64")).reshape(spec.get("shape", [n]))
         if spec.get("wrap"):
@@ -136,9 +155,26 @@ def load_outcome(data, obj, via):
     return ("H", r[1])
 
 
-def trunc_points(spec, n, rng):
+def trunc_points(spec, n, rng, data=None):
     if spec == "all":
         return list(range(n))
+    if isinstance(spec, dict) and "unicode" in spec:
+        # every offset of the last 2 KiB and of the start, and the region around multi-byte characters
+        # (bytes >= 0x80; for an uncompressed file these are the UTF-8 sequences and a few opcodes)
+        k = spec["unicode"]
+        if n < 4096:
+            return list(range(n))
+        pts = set(range(max(0, n - 2048), n)) | set(range(min(n, 96)))
+        high = [i for i, b in enumerate(data or b"") if b >= 0x80]
+        if len(high) > k:
+            step = len(high) / float(k)
+            high = [high[int(j * step)] for j in range(k)] + high[:40] + high[-40:]
+        for p in high:
+            pts |= set(range(p - 1, p + 5))
+        for b in range(8192, n + 8192, 8192):
+            pts |= {b - 1, b, b + 1}
+        pts |= {n // 2, n // 3, (1 << 16) - 1, 1 << 16, (1 << 16) + 1, (1 << 16) + 2}
+        return sorted(p for p in pts if 0 <= p < n)
     if isinstance(spec, dict):
         k = spec["auto"]
         pts = set(range(min(n, 24))) | set(range(max(0, n - 24), n))
@@ -154,11 +190,12 @@ def trunc_points(spec, n, rng):
 def run_load(c):
     obj = make_obj(c["obj"])
     buf = io.BytesIO()
-    joblib.dump(obj, buf, compress=tuple(c["compress"]) if isinstance(c["compress"], list) else c["compress"])
+    joblib.dump(obj, buf, compress=tuple(c["compress"]) if isinstance(c["compress"], list) else c["compress"],
+                protocol=c.get("protocol"))
     data = buf.getvalue()
     rng = random.Random(len(data))
     base = load_outcome(data, obj, c.get("via", "bytesio"))
-    pts = trunc_points(c["trunc"], len(data), rng)
+    pts = trunc_points(c["trunc"], len(data), rng, data)
     codes, excs, details = [], {}, []
     payload_lens = []
     zfmt = c["compress"][0] if isinstance(c["compress"], list) and c["compress"][0] in ("zlib", "gzip") else None
@@ -260,6 +297,8 @@ def run_memory(c):
                 damages += [["trunc", n] for n in range(len(orig))]
             elif dmg[0] == "trunc_auto":   # first/last 24 bytes, 8192-boundaries +-1, fractions, random points
                 damages += [["trunc", n] for n in trunc_points({"auto": dmg[1]}, len(orig), random.Random(len(orig)))]
+            elif dmg[0] == "trunc_u":      # last 2 KiB + around the multi-byte characters
+                damages += [["trunc", n] for n in trunc_points({"unicode": dmg[1]}, len(orig), random.Random(1), orig)]
             else:
                 damages.append(dmg)
         for dmg in damages:
